@@ -164,7 +164,7 @@ def ob_negative_age(s0: int, t0: int, age: int) -> bool:
 E2E_SRC = "LOG = []\ndef f(a, pad):\n    LOG.append(a)\n    return ('r', a, 'x' * pad)\n"
 
 
-def ob_e2e(perm: int, big: int, ghost: int, lim_kind: int, lim: int) -> bool:
+def ob_e2e(perm: int, big: int, ghost: int, lim_kind: int, lim: int, stale: bool) -> bool:
     """
     pre: 0 <= perm <= 5
     pre: 0 <= big <= 7
@@ -176,11 +176,12 @@ def ob_e2e(perm: int, big: int, ghost: int, lim_kind: int, lim: int) -> bool:
     H.enter()
     H.assume(lim_kind == H.P("lim_kind", 0))
     pm, bg, gh, lk, lv = H.select(perm, 0, 5), H.select(big, 0, 7), H.select(ghost, 0, 2), H.select(lim_kind, 0, 2), H.select(lim, 0, 4)
+    st = bool(stale)
     with H.native():
-        return H.verdict(_e2e(pm, bg, gh, lk, lv))
+        return H.verdict(_e2e(pm, bg, gh, lk, lv, st))
 
 
-def _e2e(pm, bg, gh, lk, lv):
+def _e2e(pm, bg, gh, lk, lv, stale=False):
     """Memory.reduce_size end to end on the model file system: 3 real entries (access order = permutation pm, payload
     sizes by bitmask bg), optionally a 'ghost' entry directory without output.pkl (gh=1: metadata only, gh=2: empty),
     one limit kind (items / bytes / age) with value selector lv."""
@@ -244,6 +245,22 @@ def _e2e(pm, bg, gh, lk, lv):
         saved_dt = sb.datetime
         sb.datetime = type("dt", (), {"datetime": type("d", (), {"now": _Now.now, "fromtimestamp": datetime.datetime.fromtimestamp}),
                                       "timedelta": datetime.timedelta})
+        saved_shutil = sb.shutil
+        if stale:
+            # the removal of the first victim ends with OSError(ESTALE): "another process has deleted the folder
+            # already" (the case enforce_store_limits documents) - the other victims still have to go
+            state = {"n": 0}
+
+            class _Shutil:
+                def __getattr__(self, name):
+                    return getattr(saved_shutil, name)
+
+                def rmtree(self, path, *a, **k):
+                    state["n"] += 1
+                    saved_shutil.rmtree(path, *a, **k)
+                    if state["n"] == 1:
+                        raise OSError(116, "Stale file handle", path)
+            sb.shutil = _Shutil()
         try:
             if lk == 0:
                 kw["items_limit"] = lv
@@ -254,6 +271,7 @@ def _e2e(pm, bg, gh, lk, lv):
             mem.reduce_size(**kw)
         finally:
             sb.datetime = saved_dt
+            sb.shutil = saved_shutil
         after = inventory()
         kept = {d for d, _, _ in after}
         evicted = [x for x in before if x[0] not in kept]
